@@ -1,4 +1,276 @@
-(* Case runner and spec checker (T3) for C02 — stub. *)
-From WI Require Import Lib.Base Lib.Info Model.Keys.
-Definition run_C02 (op : bytes) (input : arg) : arg := AL [].
-Definition check_C02 (op : bytes) (input impl : arg) : arg := AL [].
+(* Case runner and spec checker (T3) for C02. *)
+From WI Require Import Lib.Base Lib.Info Lib.Strings Model.Keys.
+Open Scope N_scope.
+
+(* ---------- decoding of case inputs ---------- *)
+Definition opt_bytes (a : arg) : option bytes := match a with AL [AB b] => Some b | _ => None end.
+Definition arcs_of (a : arg) : list N := map arg_N (arg_list a).
+Definition inferred_of (a : arg) : result bytes :=
+  match a with AL [AZ 0%Z; AB n] => Ok n | AL [AZ 2%Z] => Panic "oracle" | _ => Err "oracle" end.
+Definition ecparams_of (a : arg) : result ecparams :=
+  match a with
+  | AL [AZ 1%Z; arcs] => Ok (EcNamed (arcs_of arcs))
+  | AL [AZ 2%Z; ft; pr; c2; inf] => Ok (EcExplicit (arcs_of ft) (opt_bytes pr) (opt_bytes c2) (inferred_of inf))
+  | AL [AZ 3%Z] => Panic "oracle"
+  | _ => Err "asn1"
+  end.
+Definition ssh_oracle_of (a : arg) : ssh_oracle :=
+  mk_ssh_oracle (arg_bool (arg_nth 0 a)) (arg_bytes (arg_nth 1 a)).
+Definition ppk_of (a : arg) : option ppk_parsed :=
+  match a with
+  | AL [AZ v; AB t; AB e; AB c; AB p; AB k; AZ m; AZ ps; AZ pl] => Some (mk_ppk v t e c p k m ps pl)
+  | _ => None
+  end.
+
+Definition obs_info (r : result info) : arg := obs_result arg_of_info r.
+Definition obs_attrs (r : result (list attr)) : arg := obs_result (fun a => arg_of_info (Info [] a [])) r.
+
+Definition sign_mag (z : Z) : arg :=
+  AL [AZ (if (z <? 0)%Z then 1 else 0)%Z; AB (be_min (Z.abs_N z)); AZ (Z.of_N (zbitlen z))].
+
+(* big.Int.Bytes of a value set from b: b without its leading zero bytes *)
+Fixpoint strip_zeros (b : bytes) : bytes :=
+  match b with 0 :: r => strip_zeros r | _ => b end.
+(* int(e.Int64()) as 8 bytes: the low 64 bits *)
+Definition low8 (b : bytes) : bytes := let p := repeat 0 8 ++ b in drop (length p - 8) p.
+Definition ssh1_key_arg (k : ssh1_key) : arg :=
+  AL [AB (strip_zeros (s1_n_raw k)); AB (low8 (s1_e_raw k)); AB (s1_comment k);
+      AB (strip_zeros (s1_d_raw k)); AB (strip_zeros (s1_q_raw k)); AB (strip_zeros (s1_p_raw k))].
+
+Definition pubkey_of (kind : bytes) (a : arg) : pubkey :=
+  let z := if arg_bool (arg_nth 1 a) then (- Z.of_N (be_to_N (arg_bytes (arg_nth 0 a))))%Z
+           else Z.of_N (be_to_N (arg_bytes (arg_nth 0 a))) in
+  if bytes_eqb kind (bs "rsa") then PkRsa z
+  else if bytes_eqb kind (bs "dsa") then PkDsa z
+  else if bytes_eqb kind (bs "ecdsa") then PkEcdsa (arg_bytes (arg_nth 0 a))
+  else if bytes_eqb kind (bs "ecdh") then PkEcdh (opt_bytes (arg_nth 0 a))
+  else if bytes_eqb kind (bs "ed25519") then PkEd25519
+  else PkOther.
+
+(* the code as it is now (after the repairs recorded in known_findings.json) *)
+Definition fx : fixes := current.
+
+Fixpoint run_op (depth : nat) (op : bytes) (input : arg) : arg :=
+  let i0 := arg_nth 0 input in
+  let i1 := arg_nth 1 input in
+  if bytes_eqb op (bs "int") then
+    let kind := arg_bytes i0 in
+    let b := arg_bytes i1 in
+    if bytes_eqb kind (bs "der") then obs_result sign_mag (der_int_dec b)
+    else if bytes_eqb kind (bs "mpint") then obs_result sign_mag (Ok (mpint_dec b))
+    else if bytes_eqb kind (bs "ssh1") then
+      obs_result (fun x => AL [sign_mag (Z.of_N (fst x)); AZ (Z.of_nat (length (snd x)))]) (ssh1_read_mpint b)
+    else AL []
+  else if bytes_eqb op (bs "kdf") then
+    obs_result (fun x => AL [AB (fst x); AZ (Z.of_N (snd x))])
+      (parse_kdf_options (fx_kdf_opts fx) (arg_bytes i0) (arg_nat i1) (arg_nat (arg_nth 2 input)))
+  else if bytes_eqb op (bs "ssh1") then
+    let dec := fun _ : bytes => arg_bytes i1 in
+    AL [match ssh1_parse dec (arg_bytes i0) with
+        | Ok (S1Key k) => AL [AZ 0; ssh1_key_arg k]
+        | Ok (S1Corrupted n e c) => AL [AZ 3; AL [AB (strip_zeros n); AB (low8 e); AB c]]
+        | Err _ => AL [AZ 1]
+        | Panic _ => AL [AZ 2]
+        end;
+        obs_info (ssh1_private_key fx dec (arg_bytes i0))]
+  else if bytes_eqb op (bs "ossh") then
+    obs_info (parse_openssh_private fx (ssh_oracle_of i1) (arg_bytes i0))
+  else if bytes_eqb op (bs "sshblob") then
+    obs_attrs (let* k := ssh_parse_public (ssh_oracle_of (arg_nth 2 input)) (arg_bytes i0) in
+               Ok (ssh_public_attrs (fx_size fx) k (arg_bytes i1)))
+  else if bytes_eqb op (bs "sshline") then
+    obs_info (ssh_public_key_line (fx_size fx) (ssh_oracle_of (arg_nth 2 input))
+                (match i1 with AL [AB blob; AB c] => Some (blob, c) | _ => None end))
+  else if bytes_eqb op (bs "knownhosts") then
+    obs_info (ssh_known_hosts_one (fx_size fx) (ssh_oracle_of (arg_nth 2 input))
+                (match i1 with
+                 | AL [AZ 0%Z] => KhBlank
+                 | AL [AZ 2%Z; AL hosts; AB blob; AB c] => KhEntry (map arg_bytes hosts) blob c
+                 | _ => KhError
+                 end))
+  else if bytes_eqb op (bs "ppk") then obs_info (putty_ppk fx (ppk_of i1))
+  else if bytes_eqb op (bs "pkcs1pub") then obs_info (parse_pkcs1_public (opt_bytes i1))
+  else if bytes_eqb op (bs "pkcs1priv") then obs_info (parse_pkcs1_private (opt_bytes i1))
+  else if bytes_eqb op (bs "dsapriv") then obs_info (parse_dsa_private (opt_bytes i1))
+  else if bytes_eqb op (bs "dsaparams") then obs_info (parse_dsa_parameters (opt_bytes i1))
+  else if bytes_eqb op (bs "ecparams") then obs_info (parse_ec_parameters (ecparams_of i1))
+  else if bytes_eqb op (bs "spki") then
+    obs_info (match i1 with
+              | AL [alg; d; r; e] =>
+                  with_desc "PKIX public key" (pkix_attrs (arcs_of alg) (opt_bytes d) (opt_bytes r) (ecparams_of e))
+              | _ => Err "asn1" end)
+  else if bytes_eqb op (bs "certspki") then
+    (* getCertificateInfo: the "Public key" child built from the certificate's SubjectPublicKeyInfo *)
+    obs_info (match i1 with
+              | AL [alg; d; r; e] =>
+                  with_desc "Public key" (pkix_attrs (arcs_of alg) (opt_bytes d) (opt_bytes r) (ecparams_of e))
+              | _ => Err "asn1" end)
+  else if bytes_eqb op (bs "pkcs8") then
+    obs_info (match i1 with
+              | AL [alg; d; r; e] =>
+                  with_desc "PKCS#8 private key" (pkcs8_attrs (arcs_of alg) (opt_bytes d) (opt_bytes r) (ecparams_of e))
+              | _ => Err "asn1" end)
+  else if bytes_eqb op (bs "sec1") then
+    obs_info (match i1 with
+              | AL [named; ft; pr; c2; inf] =>
+                  with_desc "EC private key"
+                    (ec_private_attrs (arcs_of named) (arcs_of ft) (opt_bytes pr) (opt_bytes c2) (inferred_of inf))
+              | _ => Err "asn1" end)
+  else if bytes_eqb op (bs "crypto") then
+    obs_attrs (Ok (crypto_public_attrs (fx_size fx) (pubkey_of (arg_bytes i0) i1)))
+  else if bytes_eqb op (bs "e2e") then
+    (* the same key through file.Inspect with the container's framing: the description is the
+       inner parser's; [ssh1] observes (key, description) and Inspect shows the description *)
+    match depth with
+    | O => AL []
+    | S d =>
+        let inner := run_op d (arg_bytes i0) i1 in
+        let o := if bytes_eqb (arg_bytes i0) (bs "ssh1") then arg_nth 1 inner else inner in
+        (* Inspect drops a failed parser's result: with no other candidate the report is empty *)
+        match o with AL [AZ 1%Z] => AL [AZ 0%Z; arg_of_info empty_info] | _ => o end
+    end
+  else AL [].
+
+Definition run_C02 (op : bytes) (input : arg) : arg := run_op 1 op input.
+
+(* ================================================================== *)
+(* The property, evaluated on what the implementation printed (T3).    *)
+(* Independent of the model: it uses only the key the generator made   *)
+(* (the last element of the input) and constants typed from the        *)
+(* property text / FIPS 186 / RFC 8032 / RFC 7748 names.               *)
+(*   spec = ()  |  (alg size curve meta forbidden)                     *)
+(*   size  = () | (#magnitude)         -> "Size" must be its bit length *)
+(*   curve = () | (#attr-name #token)  -> that attribute names the curve *)
+(*   meta  = ((#name #value) | (#name) ...)  present verbatim / absent   *)
+(*   forbidden = (#magnitude ...)  private components                    *)
+(* ================================================================== *)
+
+Fixpoint all_attrs (i : info) : list (bytes * bytes) :=
+  match i with Info _ a c => a ++ flat_map all_attrs c end.
+Fixpoint all_strings (i : info) : list bytes :=
+  match i with Info d a c => d :: map snd a ++ flat_map all_strings c end.
+
+Definition values_of (name : bytes) (l : list (bytes * bytes)) : list bytes :=
+  map snd (filter (fun nv => bytes_eqb (fst nv) name) l).
+
+(* bit length computed from the magnitude bytes alone: 8 * (bytes after the first non-zero one) + bits of it *)
+Fixpoint spec_bits (b : bytes) : N :=
+  match b with
+  | [] => 0
+  | x :: r => if x =? 0 then spec_bits r else N.of_nat (length r) * 8 + N.size x
+  end.
+
+Definition names_token (v tok : bytes) : bool :=
+  bytes_eqb v tok || prefix_of (tok ++ [32]) v.
+
+Fixpoint first_some {A} (f : A -> option string) (l : list A) : option string :=
+  match l with
+  | [] => None
+  | x :: r => match f x with Some e => Some e | None => first_some f r end
+  end.
+
+Definition check_meta (attrs : list (bytes * bytes)) (m : arg) : option string :=
+  match m with
+  | AL [AB n; AB v] =>
+      match values_of n attrs with
+      | [x] => if bytes_eqb x v then None else Some "container metadata is not shown as stored"%string
+      | [] => Some "stored container metadata is not shown"%string
+      | _ => Some "container metadata shown more than once"%string
+      end
+  | AL [AB n] =>
+      match values_of n attrs with
+      | [] => None
+      | _ => Some "metadata shown that the container does not store"%string
+      end
+  | _ => None
+  end.
+
+(* maximal runs of ASCII digits of a string *)
+Fixpoint digit_runs (cur : bytes) (s : bytes) : list bytes :=
+  match s with
+  | [] => match cur with [] => [] | _ => [rev cur] end
+  | c :: r => if (48 <=? c) && (c <=? 57) then digit_runs (c :: cur) r
+              else match cur with [] => digit_runs [] r | _ => rev cur :: digit_runs [] r end
+  end.
+Definition dec_to_N (l : bytes) : N := fold_left (fun a d => a * 10 + (d - 48)) l 0.
+
+(* a private component (given by its magnitude bytes, at least 8 of them) appears in some
+   displayed string: raw, in hexadecimal of either case, or as a decimal number *)
+Definition leaks (strs : list bytes) (mag : bytes) : bool :=
+  if Nat.ltb (length mag) 8 then false else
+  let forms := [mag; hex_of false mag; hex_of true mag] in
+  existsb (fun s => existsb (fun f => contains f s) forms
+                    || existsb (fun run => Nat.leb 16 (length run) && (dec_to_N run =? be_to_N mag)) (digit_runs [] s)) strs.
+
+Definition check_spec (spec : arg) (obs : arg) : arg :=
+  match spec with
+  | AL [AB alg; size; curve; AL meta; AL forbidden] =>
+      match obs with
+      | AL [AZ 0%Z; ia] =>
+          let i := info_of_arg ia in
+          let attrs := all_attrs i in
+          match values_of (bs "Algorithm") attrs with
+          | [a] =>
+              if negb (bytes_eqb a alg) then AS "wrong algorithm reported" else
+              match (match size with
+                     | AL [AB mag] =>
+                         match values_of (bs "Size") attrs with
+                         | [s] => if bytes_eqb s (dec_of_N (spec_bits mag) ++ bs " bits") then None
+                                  else Some "reported size is not the bit length of the key"%string
+                         | [] => Some "no size reported"%string
+                         | _ => Some "size reported more than once"%string
+                         end
+                     | _ => None end) with
+              | Some e => AB (bytes_of_string e)
+              | None =>
+              match (match curve with
+                     | AL [AB an; AB tok] =>
+                         match values_of an attrs with
+                         | [c] => if names_token c tok then None else Some "wrong curve reported"%string
+                         | [] => Some "curve not reported"%string
+                         | _ => Some "curve reported more than once"%string
+                         end
+                     | _ => None end) with
+              | Some e => AB (bytes_of_string e)
+              | None =>
+              match first_some (check_meta attrs) meta with
+              | Some e => AB (bytes_of_string e)
+              | None =>
+                  if existsb (fun f => leaks (all_strings i) (arg_bytes f)) forbidden
+                  then AS "a private component is displayed" else AL []
+              end end end
+          | [] => AS "well-formed key: no algorithm reported"
+          | _ => AS "algorithm reported more than once"
+          end
+      | AL [AZ 2%Z] => AS "panic while describing a key"
+      | _ => AS "well-formed key is not described"
+      end
+  | _ =>
+      (* no expectation about the content (malformed input): it must still not crash *)
+      match obs with AL [AZ 2%Z] => AS "panic while describing a key" | _ => AL [] end
+  end.
+
+Definition last_arg (a : arg) : arg := last (arg_list a) (AL []).
+
+(* explicit EC parameters: a panic inside elliptic.CurveNameFromParameters (empty base point, F5) is
+   C16's finding, recorded by the harness in the oracle; it is not attributed to the key describers *)
+Definition is_panic_obs (a : arg) : bool := match a with AL [AZ 2%Z] => true | _ => false end.
+Definition ec_oracle_panics (e : arg) : bool :=
+  match e with AL [AZ 2%Z; _; _; _; inf] => is_panic_obs inf | _ => false end.
+Definition curve_matcher_panics (op : bytes) (oracle : arg) : bool :=
+  if bytes_eqb op (bs "ecparams") then ec_oracle_panics oracle
+  else if bytes_eqb op (bs "sec1") then match oracle with AL [_; _; _; _; inf] => is_panic_obs inf | _ => false end
+  else match oracle with AL [_; _; _; e] => ec_oracle_panics e | _ => false end.
+
+Definition check_C02 (op : bytes) (input impl : arg) : arg :=
+  if bytes_eqb op (bs "int") || bytes_eqb op (bs "crypto") then AL []
+  else if bytes_eqb op (bs "kdf") then
+    match impl with AL [AZ 2%Z] => AS "parseKdfOptions panics" | _ => AL [] end
+  else if bytes_eqb op (bs "ssh1") then
+    match arg_nth 0 impl with
+    | AL [AZ 2%Z] => AS "ssh1.ParsePrivateKey panics"
+    | _ => check_spec (last_arg input) (arg_nth 1 impl)
+    end
+  else if bytes_eqb op (bs "e2e") then check_spec (last_arg (arg_nth 1 input)) impl
+  else if curve_matcher_panics op (arg_nth 1 input) then AL []
+  else check_spec (last_arg input) impl.
